@@ -19,7 +19,7 @@ func plan(prop string) []scenarioDef {
 	case "C18":
 		return []scenarioDef{{"UNIT-leader", 1, genLeaderConfig, RunLeaderUnit}}
 	case "C05":
-		return []scenarioDef{{"NET-liveness", 1, genLivenessConfig, RunNet}}
+		return []scenarioDef{{"NET-liveness", 4, genLivenessConfig, RunNet}, {"RT", 1, genRTConfig, RunRT}}
 	case "C12", "C13":
 		return []scenarioDef{netScenario, rtScenario}
 	case "C14", "C16":
@@ -27,7 +27,7 @@ func plan(prop string) []scenarioDef {
 	case "C15":
 		return []scenarioDef{{"COMP-contexts", 60, genCtxConfig, RunCtxComp}, {"COMP-contexts-sweep", 1, genCtxSweepConfig, RunCtxSweep}, {"RT", 40, genRTConfig, RunRT}}
 	case "C19":
-		return []scenarioDef{{"COMP-timer", 1, genTimerConfig, RunTimerComp}}
+		return []scenarioDef{{"COMP-timer", 20, genTimerConfig, RunTimerComp}, {"RT", 1, genRTConfig, RunRT}}
 	case "C17":
 		return []scenarioDef{{"COMP-filter", 39, genFilterConfig, RunFilterComp}, {"COMP-filter-sweep", 1, genFilterSweepConfig, RunFilterSweep}}
 	default:
